@@ -11,6 +11,7 @@ Template directives (a line whose first non-blank characters are `//@`):
        //@ghost before|after "<anchor>": <ghost text>
        //@subst "<a>" => "<b>" [<Rn>]
        //@header "<a>" => "<b>"
+       //@thread "<recv.method>" => "<ghost arg>"   (R9: append the ghost argument to every call of that callee)
        //@nobody                    (emit header + contract only, `external_body` style stubs are NOT made here)
   //@end
 
@@ -398,6 +399,14 @@ class Gen:
             # keep offsets: the return-type slice below is relative to f['start']
             hdr = hdr2.replace('fn', 'fn' + ' ' * (len(hdr) - len(hdr2)), 1)
             self.rewrites.append(('R4', name, 'async fn', 'fn'))
+        if opts.get('mut_self'):
+            # R10: `mut self` receivers are not accepted by the verifier: the receiver is taken as `self` and rebound by
+            # `let mut vx_self = self;` as the first statement; every `self` in the body then names the rebound value
+            hdr2 = re.sub(r'\(\s*mut\s+self\b', lambda m_: '(' + ' ' * (len(m_.group(0)) - 5) + 'self', hdr, count=1)
+            if hdr2 == hdr:
+                raise Undecided('lost anchor: fn %s does not take `mut self`' % name)
+            hdr = hdr2
+            self.rewrites.append(('R10', name, 'mut self', 'self + let mut vx_self = self'))
         retname = opts.get('ret')
         hdr_pieces = None
         if f['ret'] and retname:
@@ -413,6 +422,7 @@ class Gen:
         optional = set()
         loopvars = {}
         opt_substs = []
+        threads = []
         etas = []
         hoist = {}
         for bl in block:
@@ -444,6 +454,9 @@ class Gen:
                 m = re.match(r'subst\s+"(.*)"\s*=>\s*"(.*)"(?:\s+(R\d))?$', dd)
                 if m:
                     substs.append((m.group(1).replace('\\"', '"').replace('\\n', '\n'), m.group(2).replace('\\"', '"').replace('\\n', '\n'), m.group(3) or 'R5')); continue
+                m = re.match(r'thread(\??)\s+"(.*)"\s*=>\s*"(.*)"$', dd)
+                if m:
+                    threads.append((m.group(2), m.group(3), bool(m.group(1)))); continue
                 m = re.match(r'header\s+"(.*)"\s*=>\s*"(.*)"$', dd)
                 if m:
                     hsubsts.append((m.group(1).replace('\\n', '\n'), m.group(2).replace('\\n', '\n'))); continue
@@ -631,6 +644,18 @@ class Gen:
                 if p < 0:
                     break
                 edits.append((p, p + len(a), b, kind))
+        # R9 threading: `//@thread "recv.method" => "Tracked(w)"` appends the ghost argument to EVERY call `recv.method(...)`
+        # in the body (anchored on the callee only, so the call's own arguments may change without losing the anchor)
+        for callee, garg, opt in threads:
+            crx = r'\s*\.\s*'.join(re.escape(x) for x in callee.split('.'))
+            hits = [m for m in re.finditer(crx + r'\s*\(', bmask) if m.start() == 0 or not (bmask[m.start() - 1].isalnum() or bmask[m.start() - 1] == '_')]
+            if not hits and not opt:
+                raise Undecided('lost anchor: no call of %s in fn %s' % (callee, label))
+            for h in hits:
+                ob = h.end() - 1
+                cb = L.match_close(bmask, ob)
+                empty = bmask[ob + 1:cb].strip() == ''
+                edits.append((cb, cb, garg if empty else ', ' + garg, 'R9'))
         # R1 automatic eta expansion
         eta_hits = list(R1_RE.finditer(bmask))
         for nm in etas:
@@ -691,6 +716,10 @@ class Gen:
         if opts.get('async_erase'):
             for m in re.finditer(r'\s*\.\s*await\b', bmask):
                 edits.append((m.start(), m.end(), '', 'R4'))
+        if opts.get('mut_self'):
+            edits.append((1, 1, ' let mut vx_self = self; ', 'R10'))
+            for m in re.finditer(r'\bself\b', bmask):
+                edits.append((m.start(), m.end(), 'vx_self', 'R10'))
         # R5f (`| fmt_opaque` on the directive): every `format!(..)` expression becomes `vx_fmt_opaque()` - an arbitrary String.
         #      The arguments are Display/Debug renderings without side effects in the functions this is used for (stated).
         if opts.get('fmt_opaque'):
